@@ -22,65 +22,73 @@ Record world := {
   w_waits : N;                   (* time advances spent waiting inside the current operation *)
   w_envok : bool;                (* ghost: every resumed CONNACK so far left room for the publishes carried over *)
   w_wire : bytes;                (* ghost: every byte the current transport has accepted, in order *)
-  w_poison : bool                (* ghost: an operation that is not cancel-safe (QoS 0 publish, disconnect) was dropped
+  w_poison : bool;               (* ghost: an operation that is not cancel-safe (QoS 0 publish, disconnect) was dropped
                                     in the middle of its packet, or disconnect() ran while a queued packet was half
-                                    written — the two ways a packet can start inside another one (C01 K01b/K01c) *) }.
+                                    written — the two ways a packet can start inside another one (C01 K01b/K01c) *)
+  w_drained : bool               (* ghost: every inbound packet handled so far met an outbound side with nothing left
+                                    to write (next_step = None): the client drains before it reads (C04) *) }.
 
 Definition upd_sess (w : world) (s : session) : world :=
   {| w_sess := s; w_conn := w_conn w; w_live := w_live w; w_event := w_event w; w_now := w_now w; w_inq := w_inq w;
      w_last_arrival := w_last_arrival w; w_txbuf := w_txbuf w; w_script := w_script w; w_broker := w_broker w;
-     w_log := w_log w; w_handles := w_handles w; w_waits := w_waits w; w_envok := w_envok w; w_wire := w_wire w; w_poison := w_poison w |}.
+     w_log := w_log w; w_handles := w_handles w; w_waits := w_waits w; w_envok := w_envok w; w_wire := w_wire w; w_poison := w_poison w; w_drained := w_drained w |}.
 Definition upd_live (w : world) (conn live : bool) (ev : N) : world :=
   {| w_sess := w_sess w; w_conn := conn; w_live := live; w_event := ev; w_now := w_now w; w_inq := w_inq w;
      w_last_arrival := w_last_arrival w; w_txbuf := w_txbuf w; w_script := w_script w; w_broker := w_broker w;
-     w_log := w_log w; w_handles := w_handles w; w_waits := w_waits w; w_envok := w_envok w; w_wire := w_wire w; w_poison := w_poison w |}.
+     w_log := w_log w; w_handles := w_handles w; w_waits := w_waits w; w_envok := w_envok w; w_wire := w_wire w; w_poison := w_poison w; w_drained := w_drained w |}.
 Definition upd_log (w : world) (l : text) : world :=
   {| w_sess := w_sess w; w_conn := w_conn w; w_live := w_live w; w_event := w_event w; w_now := w_now w; w_inq := w_inq w;
      w_last_arrival := w_last_arrival w; w_txbuf := w_txbuf w; w_script := w_script w; w_broker := w_broker w;
-     w_log := l :: w_log w; w_handles := w_handles w; w_waits := w_waits w; w_envok := w_envok w; w_wire := w_wire w; w_poison := w_poison w |}.
+     w_log := l :: w_log w; w_handles := w_handles w; w_waits := w_waits w; w_envok := w_envok w; w_wire := w_wire w; w_poison := w_poison w; w_drained := w_drained w |}.
 Definition upd_script (w : world) (sc : list (N * N)) : world :=
   {| w_sess := w_sess w; w_conn := w_conn w; w_live := w_live w; w_event := w_event w; w_now := w_now w; w_inq := w_inq w;
      w_last_arrival := w_last_arrival w; w_txbuf := w_txbuf w; w_script := sc; w_broker := w_broker w;
-     w_log := w_log w; w_handles := w_handles w; w_waits := w_waits w; w_envok := w_envok w; w_wire := w_wire w; w_poison := w_poison w |}.
+     w_log := w_log w; w_handles := w_handles w; w_waits := w_waits w; w_envok := w_envok w; w_wire := w_wire w; w_poison := w_poison w; w_drained := w_drained w |}.
 Definition upd_now (w : world) (t : N) : world :=
   {| w_sess := w_sess w; w_conn := w_conn w; w_live := w_live w; w_event := w_event w; w_now := t; w_inq := w_inq w;
      w_last_arrival := w_last_arrival w; w_txbuf := w_txbuf w; w_script := w_script w; w_broker := w_broker w;
-     w_log := w_log w; w_handles := w_handles w; w_waits := w_waits w; w_envok := w_envok w; w_wire := w_wire w; w_poison := w_poison w |}.
+     w_log := w_log w; w_handles := w_handles w; w_waits := w_waits w; w_envok := w_envok w; w_wire := w_wire w; w_poison := w_poison w; w_drained := w_drained w |}.
 Definition upd_inq (w : world) (q : list (N * bytes)) (last : N) : world :=
   {| w_sess := w_sess w; w_conn := w_conn w; w_live := w_live w; w_event := w_event w; w_now := w_now w; w_inq := q;
      w_last_arrival := last; w_txbuf := w_txbuf w; w_script := w_script w; w_broker := w_broker w;
-     w_log := w_log w; w_handles := w_handles w; w_waits := w_waits w; w_envok := w_envok w; w_wire := w_wire w; w_poison := w_poison w |}.
+     w_log := w_log w; w_handles := w_handles w; w_waits := w_waits w; w_envok := w_envok w; w_wire := w_wire w; w_poison := w_poison w; w_drained := w_drained w |}.
 Definition upd_txbuf (w : world) (b : bytes) : world :=
   {| w_sess := w_sess w; w_conn := w_conn w; w_live := w_live w; w_event := w_event w; w_now := w_now w; w_inq := w_inq w;
      w_last_arrival := w_last_arrival w; w_txbuf := b; w_script := w_script w; w_broker := w_broker w;
-     w_log := w_log w; w_handles := w_handles w; w_waits := w_waits w; w_envok := w_envok w; w_wire := w_wire w; w_poison := w_poison w |}.
+     w_log := w_log w; w_handles := w_handles w; w_waits := w_waits w; w_envok := w_envok w; w_wire := w_wire w; w_poison := w_poison w; w_drained := w_drained w |}.
 Definition upd_broker (w : world) (m : N) : world :=
   {| w_sess := w_sess w; w_conn := w_conn w; w_live := w_live w; w_event := w_event w; w_now := w_now w; w_inq := w_inq w;
      w_last_arrival := w_last_arrival w; w_txbuf := w_txbuf w; w_script := w_script w; w_broker := m;
-     w_log := w_log w; w_handles := w_handles w; w_waits := w_waits w; w_envok := w_envok w; w_wire := w_wire w; w_poison := w_poison w |}.
+     w_log := w_log w; w_handles := w_handles w; w_waits := w_waits w; w_envok := w_envok w; w_wire := w_wire w; w_poison := w_poison w; w_drained := w_drained w |}.
 Definition upd_handles (w : world) (h : list op) : world :=
   {| w_sess := w_sess w; w_conn := w_conn w; w_live := w_live w; w_event := w_event w; w_now := w_now w; w_inq := w_inq w;
      w_last_arrival := w_last_arrival w; w_txbuf := w_txbuf w; w_script := w_script w; w_broker := w_broker w;
-     w_log := w_log w; w_handles := h; w_waits := w_waits w; w_envok := w_envok w; w_wire := w_wire w; w_poison := w_poison w |}.
+     w_log := w_log w; w_handles := h; w_waits := w_waits w; w_envok := w_envok w; w_wire := w_wire w; w_poison := w_poison w; w_drained := w_drained w |}.
 
 Definition upd_waits (w : world) (n : N) : world :=
   {| w_sess := w_sess w; w_conn := w_conn w; w_live := w_live w; w_event := w_event w; w_now := w_now w; w_inq := w_inq w;
      w_last_arrival := w_last_arrival w; w_txbuf := w_txbuf w; w_script := w_script w; w_broker := w_broker w;
-     w_log := w_log w; w_handles := w_handles w; w_waits := n; w_envok := w_envok w; w_wire := w_wire w; w_poison := w_poison w |}.
+     w_log := w_log w; w_handles := w_handles w; w_waits := n; w_envok := w_envok w; w_wire := w_wire w; w_poison := w_poison w; w_drained := w_drained w |}.
 
 Definition upd_envok (w : world) (b : bool) : world :=
   {| w_sess := w_sess w; w_conn := w_conn w; w_live := w_live w; w_event := w_event w; w_now := w_now w; w_inq := w_inq w;
      w_last_arrival := w_last_arrival w; w_txbuf := w_txbuf w; w_script := w_script w; w_broker := w_broker w;
-     w_log := w_log w; w_handles := w_handles w; w_waits := w_waits w; w_envok := b; w_wire := w_wire w; w_poison := w_poison w |}.
+     w_log := w_log w; w_handles := w_handles w; w_waits := w_waits w; w_envok := b; w_wire := w_wire w; w_poison := w_poison w; w_drained := w_drained w |}.
 
 Definition upd_wire (w : world) (b : bytes) : world :=
   {| w_sess := w_sess w; w_conn := w_conn w; w_live := w_live w; w_event := w_event w; w_now := w_now w; w_inq := w_inq w;
      w_last_arrival := w_last_arrival w; w_txbuf := w_txbuf w; w_script := w_script w; w_broker := w_broker w;
-     w_log := w_log w; w_handles := w_handles w; w_waits := w_waits w; w_envok := w_envok w; w_wire := b; w_poison := w_poison w |}.
+     w_log := w_log w; w_handles := w_handles w; w_waits := w_waits w; w_envok := w_envok w; w_wire := b; w_poison := w_poison w; w_drained := w_drained w |}.
 Definition upd_poison (w : world) (b : bool) : world :=
   {| w_sess := w_sess w; w_conn := w_conn w; w_live := w_live w; w_event := w_event w; w_now := w_now w; w_inq := w_inq w;
      w_last_arrival := w_last_arrival w; w_txbuf := w_txbuf w; w_script := w_script w; w_broker := w_broker w;
-     w_log := w_log w; w_handles := w_handles w; w_waits := w_waits w; w_envok := w_envok w; w_wire := w_wire w; w_poison := b |}.
+     w_log := w_log w; w_handles := w_handles w; w_waits := w_waits w; w_envok := w_envok w; w_wire := w_wire w; w_poison := b; w_drained := w_drained w |}.
+
+Definition upd_drained (w : world) (b : bool) : world :=
+  {| w_sess := w_sess w; w_conn := w_conn w; w_live := w_live w; w_event := w_event w; w_now := w_now w; w_inq := w_inq w;
+     w_last_arrival := w_last_arrival w; w_txbuf := w_txbuf w; w_script := w_script w; w_broker := w_broker w;
+     w_log := w_log w; w_handles := w_handles w; w_waits := w_waits w; w_envok := w_envok w; w_wire := w_wire w;
+     w_poison := w_poison w; w_drained := b |}.
 
 Definition MAX_WAITS : N := 64.        (* an operation that has waited this often is dropped by the application *)
 Definition STUTTER_MS : N := 100.      (* re-poll interval while the awaited deadline has already expired *)
@@ -337,7 +345,8 @@ Definition process_received (w : world) : world * outcome (option rpacket) :=
   | Some (r', _, None) => (w_hd (upd_sess w (set_reader s r')), OFail EInvalidPacket)
   | Some (r', _, Some p) =>
       let '(s2, hr) := handle_packet (set_reader s r') p in
-      let w2 := upd_envok (upd_sess w s2) (w_envok w && ack_type_ok (set_reader s r') p) in
+      let w2 := upd_drained (upd_envok (upd_sess w s2) (w_envok w && ack_type_ok (set_reader s r') p))
+                            (w_drained w && match next_step (s_ob s) with None => true | Some _ => false end) in
       match hr with
       | HOk true => (w2, ODone (Some p))
       | HOk false => (w2, ODone None)
